@@ -2,6 +2,7 @@ package main
 
 import (
 	"fmt"
+	"strings"
 	"go/types"
 
 	"golang.org/x/tools/go/ssa"
@@ -737,4 +738,321 @@ func checkRepliesHoldNoPooledMemory(c *Ctx, rule string) {
 			"a function that builds a reply hands memory back to a sync.Pool: the reply is encoded and written after the function has returned, from memory the next request may already have taken")
 	}
 	c.floor(rule, 20)
+}
+
+// ---- rules added after the short ninth round (faults at a point; DESIGN.md section 27) ----
+
+// checkCloseReportsFailure (C04.R19, C10.R20, C11.R25): a function that closes something on behalf of a caller (its name
+// says close, it returns an error) does not turn a failure it has seen into success.  From a point where an error
+// obtained in the function is known to be non-nil — the non-nil side of a nil test, the true side of a comparison with a
+// sentinel (== or errors.Is) — no return with the nil constant as its error is reachable.  io.EOF is not a failure.
+func checkCloseReportsFailure(c *Ctx, rule string, want func(fn *ssa.Function) bool, floor int) {
+	p := c.P
+	n := 0
+	isEOFv := func(v ssa.Value) bool {
+		u, ok := v.(*ssa.UnOp)
+		if !ok {
+			return false
+		}
+		g, ok := u.X.(*ssa.Global)
+		return ok && g.Name() == "EOF"
+	}
+	isSentinel := func(v ssa.Value) bool {
+		if isEOFv(v) {
+			return false
+		}
+		switch x := v.(type) {
+		case *ssa.UnOp:
+			_, ok := x.X.(*ssa.Global)
+			return ok
+		case *ssa.MakeInterface:
+			_, ok := x.X.(*ssa.Const)
+			return ok
+		}
+		return false
+	}
+	for _, fn := range p.LibFuncs() {
+		if outermost(fn) != fn || fn.Package() != p.Sftp || len(fn.Blocks) == 0 {
+			continue
+		}
+		if nm := strings.ToLower(fn.Name()); !strings.Contains(nm, "close") {
+			continue
+		}
+		res := fn.Signature.Results()
+		if res.Len() == 0 || !isErrorType(res.At(res.Len()-1).Type()) || (want != nil && !want(fn)) {
+			continue
+		}
+		ei := res.Len() - 1
+		n++
+		c.looked(fnName(fn))
+		// results spilled to a local because the function defers: `*t0 = nil; rundefers; return *t0`
+		spilled := map[ssa.Value]bool{}
+		for _, ret := range findInstrs(fn, isReturn) {
+			if r := ret.(*ssa.Return); len(r.Results) > ei {
+				if u, ok := r.Results[ei].(*ssa.UnOp); ok {
+					if a, ok := u.X.(*ssa.Alloc); ok {
+						spilled[a] = true
+					}
+				}
+			}
+		}
+		okReturn := func(x ssa.Instruction) bool {
+			if st, ok := x.(*ssa.Store); ok {
+				return spilled[st.Addr] && isNilConst(st.Val)
+			}
+			r, ok := x.(*ssa.Return)
+			return ok && len(r.Results) > ei && isNilConst(r.Results[ei])
+		}
+		bad, pos := false, p.Pos(fn.Pos())
+		eachInstr(fn, func(in ssa.Instruction) {
+			v, isVal := in.(ssa.Value)
+			if !isVal || !isErrorType(v.Type()) {
+				return
+			}
+			switch in.(type) {
+			case *ssa.Call, *ssa.Extract:
+			default:
+				return
+			}
+			for _, t := range nilTests(v) {
+				if reachFromNilSide(t, true, okReturn, nil) {
+					bad, pos = true, p.Pos(t.iff.Pos())
+				}
+			}
+			if refs := v.Referrers(); refs != nil {
+				for _, r := range *refs {
+					var cond ssa.Value
+					switch x := r.(type) {
+					case *ssa.BinOp:
+						if x.Op.String() == "==" && ((x.X == v && isSentinel(x.Y)) || (x.Y == v && isSentinel(x.X))) {
+							cond = x
+						}
+					case *ssa.Call:
+						if callIs(&x.Call, "errors.Is") && len(x.Call.Args) == 2 && x.Call.Args[0] == v && isSentinel(x.Call.Args[1]) {
+							cond = x
+						}
+					}
+					if cond == nil || cond.Referrers() == nil {
+						continue
+					}
+					for _, rr := range *cond.Referrers() {
+						if iff, ok := rr.(*ssa.If); ok && len(iff.Block().Succs) == 2 {
+							if reachCore(iff.Block().Succs[0], 0, okReturn, nil) && len(iff.Block().Succs[0].Preds) == 1 {
+								bad, pos = true, p.Pos(iff.Pos())
+							}
+						}
+					}
+				}
+			}
+		})
+		c.check(!bad, rule, "a failure seen by "+fnName(fn)+" is reported", pos, "no nil return behind a non-nil error",
+			"behind an error that is known to be non-nil this function can return nil: a close that failed (the connection was lost, the handler's Close reported an error) is reported as a success")
+	}
+	c.floor(rule, floor)
+}
+
+// checkInserterInsertsOnEveryPath (C11.R26): a function that enters a Request into the handle table does so on every
+// path to its return.  The caller has already decided to publish (the open produced a handle); an inserter that skips
+// the entry under some condition (the context is already cancelled) leaves the object the handler returned outside the
+// table, where neither CLOSE nor the end-of-session sweep finds it.
+func checkInserterInsertsOnEveryPath(c *Ctx, rule string) {
+	p := c.P
+	n := 0
+	for _, fn := range p.LibFuncs() {
+		if outermost(fn) != fn || fn.Package() != p.Sftp {
+			continue
+		}
+		isInsert := func(in ssa.Instruction) bool {
+			mu, ok := in.(*ssa.MapUpdate)
+			if !ok {
+				return false
+			}
+			u, ok := mu.Map.(*ssa.UnOp)
+			if !ok {
+				return false
+			}
+			t, name, _, ok := fieldOf(u.X)
+			if !ok {
+				return false
+			}
+			tn := typeName(t)
+			return (tn == "RequestServer" && name == "openRequests") || (tn == "Server" && name == "openFiles")
+		}
+		ins := findInstrs(fn, isInsert)
+		if len(ins) == 0 {
+			continue
+		}
+		n++
+		c.looked(fnName(fn))
+		all := true
+		for _, ret := range findInstrs(fn, isReturn) {
+			if !alwaysBefore(fn, ret, isInsert) {
+				all = false
+			}
+		}
+		c.check(all, rule, "the table entry is made on every path of "+fnName(fn), p.Pos(ins[0].Pos()), "every return is preceded by the entry",
+			"a function that enters an object into the handle table can return without having done so: the object is then owned by nobody (never closed, never notified)")
+	}
+	c.floor(rule, 2)
+}
+
+// checkOneWrapperPerRequest (C10.R21): (*Request).call hands a request to one handler wrapper.  Behind the call of a
+// wrapper (a function of the package that returns the reply) no second wrapper call is reachable: a request served a
+// second time because of what the first handler answered invokes two handlers for one request, and the client gets the
+// second one's answer instead of the first one's error.
+func checkOneWrapperPerRequest(c *Ctx, rule string) {
+	p := c.P
+	fn := p.Func("(*Request).call")
+	if fn == nil {
+		c.missing(rule, "(*Request).call")
+		return
+	}
+	c.looked(fnName(fn))
+	isWrapper := func(in ssa.Instruction) bool {
+		call, ok := in.(*ssa.Call)
+		if !ok {
+			return false
+		}
+		f := call.Call.StaticCallee()
+		if f == nil || !inModule(f) || f.Signature.Results().Len() != 1 {
+			return false
+		}
+		return typeName(f.Signature.Results().At(0).Type()) == "responsePacket"
+	}
+	n := 0
+	for _, w := range findInstrs(fn, isWrapper) {
+		n++
+		again := reachAvoiding(fn, w, func(x ssa.Instruction) bool { return x != w && isWrapper(x) }, nil)
+		c.check(!again, rule, "one handler wrapper per request: "+fnName(callOf(w).StaticCallee()), p.Pos(w.Pos()), "no second wrapper call behind it",
+			"behind this handler wrapper a second one is reachable for the same request: two handlers are invoked for one request and the first one's answer is dropped")
+	}
+	c.floor(rule, 5)
+}
+
+// checkHandlersErrorIsTheOneReported (C10.R22): in the wrappers round the handlers' ReadAt/WriteAt/ListAt calls the error
+// handed to statusFromError is the handler's own whenever it is non-nil.  Every way the argument gets its value is the
+// handler's error, something computed from it, or a value selected where the handler's error was found nil.  An error of
+// the library's own choosing put in its place (io.ErrShortWrite for a short count) hides permission, not-exist and
+// status-code errors behind SSH_FX_FAILURE.
+func checkHandlersErrorIsTheOneReported(c *Ctx, rule string) {
+	p := c.P
+	sfe := p.Func("statusFromError")
+	if sfe == nil {
+		c.missing(rule, "statusFromError")
+		return
+	}
+	n := 0
+	for _, fn := range p.LibFuncs() {
+		if outermost(fn) != fn || fn.Package() != p.Sftp || isClientSide(fn) {
+			continue
+		}
+		// the handler's error: the error result of an invoke of ReadAt/WriteAt/ListAt
+		var herr ssa.Value
+		eachInstr(fn, func(in ssa.Instruction) {
+			call, ok := in.(*ssa.Call)
+			if !ok || !call.Call.IsInvoke() {
+				return
+			}
+			switch call.Call.Method.Name() {
+			case "ReadAt", "WriteAt", "ListAt":
+			default:
+				return
+			}
+			for _, r := range *call.Referrers() {
+				if ex, ok := r.(*ssa.Extract); ok && isErrorType(ex.Type()) {
+					herr = ex
+				}
+			}
+		})
+		if herr == nil {
+			continue
+		}
+		nilSide := map[*ssa.BasicBlock]bool{}
+		for _, t := range nilTests(herr) {
+			nilSide[t.isNil] = true
+		}
+		underNil := func(b *ssa.BasicBlock) bool {
+			for s := range nilSide {
+				if len(s.Preds) == 1 && (s == b || s.Dominates(b)) {
+					return true
+				}
+			}
+			return false
+		}
+		for _, site := range findInstrs(fn, func(in ssa.Instruction) bool {
+			cc := callOf(in)
+			return cc != nil && cc.StaticCallee() == sfe
+		}) {
+			args := callOf(site).Args
+			if len(args) < 2 {
+				continue
+			}
+			// only the calls behind the handler call
+			if !reachAvoiding(fn, herr.(ssa.Instruction), func(x ssa.Instruction) bool { return x == site }, nil) {
+				continue
+			}
+			n++
+			bad := ""
+			seen := map[ssa.Value]bool{}
+			var walk func(v ssa.Value, b *ssa.BasicBlock, d int)
+			walk = func(v ssa.Value, b *ssa.BasicBlock, d int) {
+				if seen[v] || d > 6 {
+					return
+				}
+				seen[v] = true
+				if v == herr {
+					return
+				}
+				switch x := v.(type) {
+				case *ssa.Phi:
+					for i, e := range x.Edges {
+						walk(e, x.Block().Preds[i], d+1)
+					}
+					return
+				case *ssa.Call:
+					for _, a := range x.Call.Args {
+						if a == herr {
+							return
+						}
+					}
+				}
+				if b != nil && underNil(b) {
+					return
+				}
+				// a value that comes in on a way that does not pass the handler's call stands for "no call was made"
+				if b != nil && !blockReaches(herr.(ssa.Instruction).Block(), b) {
+					return
+				}
+				bad = v.String()
+			}
+			// only an argument that can be the handler's error is in question: a join of it with something else
+			hasHerr := false
+			var has func(v ssa.Value, d int)
+			hseen := map[ssa.Value]bool{}
+			has = func(v ssa.Value, d int) {
+				if hseen[v] || d > 6 {
+					return
+				}
+				hseen[v] = true
+				if v == herr {
+					hasHerr = true
+				}
+				if ph, ok := v.(*ssa.Phi); ok {
+					for _, e := range ph.Edges {
+						has(e, d+1)
+					}
+				}
+			}
+			has(args[1], 0)
+			if !hasHerr {
+				n--
+				continue
+			}
+			walk(args[1], site.Block(), 0)
+			c.check(bad == "", rule, "error reported by "+fnName(fn)+" behind the handler's call", p.Pos(site.Pos()),
+				"the handler's error, or a value chosen where it was nil",
+				"the status is built from "+bad+" on a way on which the handler's own error may be non-nil: the handler's error is replaced by one of the library's choosing")
+		}
+	}
+	c.floor(rule, 2)
 }
